@@ -23,6 +23,12 @@ CHECKS = {
  "C06": ("exploration", "differential property test against an independent implementation of FORMAT.md, both directions, plus incremental AES-GCM vs the aes-gcm crate over generated message splits",
          "Archives written by the library are decoded by refimpl (written from FORMAT.md only: header, ECIES wrap, nonce||BE32(i) chunks, brotli blocks + sizes footer, typed records, end marker, index) and must yield the model's files and the documented structure; archives encoded by refimpl with free parameters must be read identically by the library; the cipher core must equal standard AES-256-GCM for every split. A symmetric change of writer and reader is caught because the other side is independent.",
          "Trusts refimpl (self-test pins it to every number FORMAT.md prints for samples/archive_v1.mla) and the aes-gcm, hkdf, sha2, x25519-dalek, brotli crates as primitives.", "DESIGN.md section 4 C06"),
+ "C10": ("exploration", "stateful property test: generated operation histories on one reader, differential against a fresh reader per file",
+         "Histories of list / open (any order, repeated) / reads with buffer sizes 0, 1, primes, larger than the file / abandon midway / get_hash on a single ArchiveReader must return, at every step, exactly what a fresh reader reading only that file returns. Targets state shared between operations (cached chunk, open decompressor, position counters, run index).",
+         "Baseline is the library's own fresh reader (as the property states); its agreement with the written data is C01's claim.", "DESIGN.md section 4 C10"),
+ "C12": ("exploration", "differential property test (linear_extract vs get_file) over generated interleaved archives, subsets and throttled/interrupting sinks, plus refimpl-built negative archives without end marker / cut mid-record",
+         "Each chosen sink must receive exactly the bytes per-file extraction returns, absent names nothing; archives whose block stream lacks the end-of-data marker or is cut inside a record (valid index appended so that they open) must make linear_extract fail.",
+         "Negative cases that by accident still parse to a marker byte under an independent record parser are excluded and counted.", "DESIGN.md section 4 C12"),
  "C11": ("exploration", "differential property test against io::Cursor over refimpl-encoded layer streams (exhaustive length sweep on scaled constants + random seek/read histories)",
          "Layer streams of every plaintext length (every residue modulo chunk and block on the scaled build, boundary windows on the production build) are encoded by an independent implementation of the format; the library's layer readers, stacked as mlar does, must return the same positions and bytes as an in-memory cursor for generated seek/read histories within [0, L].",
          "Trusts refimpl (anchored to FORMAT.md by a self-test on samples/archive_v1.mla), the aes-gcm / brotli / x25519-dalek / hkdf crates.", "DESIGN.md section 4 C11"),
